@@ -18,6 +18,7 @@ META = {
     "assumptions": [],
 }
 META["explanation"] += " " + "(X-copykind) the copy constructor of TagBit keeps the kind of its source in every arm (a Make<K>Tag helper may be used only in an arm whose labels are exactly K). PR-looptag additionally: every scanner that takes the loop context receives the caller's current one."
+META["explanation"] += " " + '(PR-childflag) typestate pairing on the CFG of parse(): the in-a-child-tag flag is set only together with a push of the parent storage, and on every path out of the statement that pops it the flag is false exactly when the storage was popped. (SIGN-unit) a raw code unit is ordered against a constant only where the enclosing condition gives the same answer for signed and unsigned units (three-valued evaluation of the formula for "a unit >= 0x80" in both readings).'
 
 T = "Qentem::TemplateCore::"
 
